@@ -307,6 +307,8 @@ def molecules(rng, nrand=3):
     # along the rod: any pose-dependent shortcut in the search bounds shows when the rod points along a body diagonal)
     out.append([{"z": 8, "p": [q(1.3), q(-0.7), q(2.1)]}])
     out.append([{"z": 6 if i % 4 else 7, "p": [q(1.22 * i - 5.0), q(0.31 * (i % 2)), q(0.2)]} for i in range(10)])
+    # ... and one 22 A long: its surface lies more than 10.6 A (where the tabulated atomic densities end) from the centroid
+    out.append([{"z": 6, "p": [q(1.25 * i - 11.0), q(0.3 * (i % 2)), q(-0.1)]} for i in range(18)])
     for _ in range(nrand):
         n = rng.randint(3, 8)
         atoms = []
@@ -372,6 +374,8 @@ def run(ctx):
             for channel in ("none", "d_norm", "esp"):
                 if kind == "molecule" and channel == "esp" and ctx.quick:
                     continue
+                if kind == "stockholder" and len(inner) >= 18:
+                    continue                       # the 22 A rod reaches beyond the 9 A search bound used for stockholder surfaces
                 for lmax in lmaxes:
                     if ctx.quick and (mi + lmax + len(kind) + len(channel)) % 3 and not (len(inner) == 1 and lmax == lmaxes[0]):
                         continue
@@ -407,6 +411,12 @@ def run(ctx):
             ch = ("none", "d_norm")[(i + len(kind)) % 2]
             ws = [w for w in rng.sample(cwords, ctx.pick(3, 6)) if all(not (tag == "P" and arg >= len(lst["atoms"])) for tag, arg in w)]
             recs.append({"lmax": rng.choice([4, 6, 9]), "kind": kind, "channel": ch, "words": ws, "base": lst})
+    # a monatomic crystal with its atom exactly on the cell origin (coordinates exact in single precision: the centre of the
+    # search coincides with the nucleus), and the same crystal listed elsewhere
+    for i, (z, edge) in enumerate(((18, 1060), (10, 900), (36, 1140))):
+        lst = {"cell": [edge, edge + 20, edge + 40], "atoms": [{"z": z, "p": [0, 0, 0]}]}
+        recs.append({"lmax": 4, "kind": "crystal-mol", "channel": ("none", "d_norm", "none")[i], "words": [[["S", 1]], [["S", 4]], [["X", 1]]], "base": lst})
+        recs.append({"lmax": 4, "kind": "crystal-atom", "channel": "none", "words": [[["S", 2]], [["X", 2]]], "base": lst})
     traces = pool_map(drive, recs, chunksize=1)
     ctx.notes["descriptor_evaluations"] = sum(len(t["poses"]) for t in traces)
     ctx.validate("trace/Trace_Descriptor.tla", traces, timeout=1800)
